@@ -154,6 +154,9 @@ structure Script where
   valid : Bool              -- false: exits non-zero / prints no JSON / misses a required field
   interp : Bool             -- its `#!` line names a private interpreter of the sandbox (else /bin/sh);
                             -- no influence until the world removes that interpreter (`rminterp`)
+  flavour : Nat             -- which concrete output the script produces within its class (valid: plain /
+                            -- extra white space / unknown extra field; not valid: exit 1, not JSON, missing
+                            -- field, ..., a valid object FOLLOWED by more output, hangs): no influence on the model
   deriving DecidableEq, Repr, FromJson, ToJson
 
 /-- a regular file -/
@@ -202,6 +205,9 @@ structure Op where
                             -- below such a link (the guard resolves links; the directory walk does not)
   entries : List Entry      -- directory: its entries (any order); file: `[the file]`; `[]`: no such path;
                             -- plant: the regular files the planted directory holds
+  ctx : String              -- install: the context of the call: "background", "deadline" (ends after a while:
+                            -- only matters to plugins that hang, which do not answer either way), "cancelled"
+                            -- (done before the call: no plugin can be executed)
   deriving Repr, FromJson, ToJson
 
 /-- an installed plugin: a directory of the plugin root and the regular files in it -/
@@ -343,6 +349,10 @@ directory or lies in it (plugin names are single path elements, so "inside `<roo
 = "in the root directory called `<name>`") -/
 def insideOwn (op : Op) (name : Text) : Bool := !op.srcIn.isEmpty && op.srcIn == name
 
+/-- the new plugin is never asked: the source is inside the plugin's own directory (guard), or
+the context of the call is already done (`exec.CommandContext` does not start the plugin) -/
+def blocked (op : Op) (name : Text) : Bool := insideOwn op name || op.ctx == "cancelled"
+
 /-- validatePluginName, the `isPathWithin` guard, [setExecutable], NewCLIPlugin, GetMetadata
 of the new plugin - in this order -/
 def newOf (op : Op) (loc : Option Located) : Option New :=
@@ -350,7 +360,7 @@ def newOf (op : Op) (loc : Option Located) : Option New :=
   | none => none
   | some l =>
     if !validName l.name then none
-    else if insideOwn op l.name then none
+    else if blocked op l.name then none
     else match metadata l.name l.exe with
       | none => none
       | some v => some ⟨l.name, v, copied op l⟩
